@@ -1,7 +1,10 @@
 package main
 
 import (
+	"regexp"
 	"strings"
+
+	"hmsverif/internal/hs"
 )
 
 // c11Oracle: both backends produce exactly refsem's observation for control-flow programs; the
@@ -42,6 +45,76 @@ func c11Oracle(pc progCase, r *Result) {
 	r.Trans(4)
 	if class, detail := compareRef(ref, ot, false); class != "" {
 		r.Fail(class, append([]string{"backend:tree"}, tags...), pc.P.Text, detail)
+	}
+	c11Imported(pc, ref, tags, r)
+}
+
+// c11Imported: "function calls at any depth" includes calls into another module. The helper
+// functions and the globals of the program are moved, unchanged, into a module `lib` (the
+// functions as `pub`, plus a `pub` reader per global); `main` imports them and reads the globals
+// through the readers. Names do not clash, so the reference observation is the same except
+// for the positions a handler prints (they name another file now: masked on both sides).
+var (
+	reGlobalRead = regexp.MustCompile(`\bG2?\b`)
+	reCaughtPos  = regexp.MustCompile(`(caught \S+) \d+ \d+`)
+)
+
+func c11Imported(pc progCase, ref hs.RefObs, tags []string, r *Result) {
+	if len(pc.Prog.Funcs) < 2 || len(pc.Prog.Singletons) > 0 || len(pc.Prog.Imports) > 0 || hasTag(pc.Tags, "closure-capture") {
+		return
+	}
+	lib := &hs.Program{Globals: pc.Prog.Globals}
+	mainP := &hs.Program{}
+	var names []string
+	for _, f := range pc.Prog.Funcs {
+		if f.Name == "main" {
+			mainP.Funcs = append(mainP.Funcs, f)
+			continue
+		}
+		g := *f
+		g.Pub = true
+		lib.Funcs = append(lib.Funcs, &g)
+		names = append(names, f.Name)
+	}
+	if len(mainP.Funcs) != 1 {
+		return
+	}
+	for _, gl := range pc.Prog.Globals {
+		get := hs.Fn("read_"+gl.Name, hs.TInt, hs.Blk(hs.V(gl.Name)))
+		get.Pub = true
+		lib.Funcs = append(lib.Funcs, get)
+		names = append(names, get.Name)
+	}
+	lib.Funcs = append(lib.Funcs, hs.Fn("main", nil, hs.Blk(nil)))
+	mainP.Imports = []hs.Import{{Names: names, From: "lib"}}
+	mainText := hs.Print(mainP).Text
+	if len(pc.Prog.Globals) > 0 {
+		// (the import line itself must keep the names)
+		nl := strings.Index(mainText, "\n")
+		mainText = mainText[:nl+1] + reGlobalRead.ReplaceAllStringFunc(mainText[nl+1:], func(m string) string { return "read_" + m + "()" })
+	}
+	mods := map[string]string{"main": mainText, "lib": hs.Print(lib).Text}
+	text := detText(detProg{Mods: mods})
+	a := Analyze(mods, true)
+	if a.Obs.Class == "HOST-PANIC" || !a.Obs.Accepted() {
+		r.Note("imported-variant-not-accepted", 1)
+		return
+	}
+	r.Note("imported-variant-run", 1)
+	itags := append([]string{"callee:in-imported-module"}, tags...)
+	refNoPos := ref
+	refNoPos.ThrowAt, refNoPos.FatalAt = nil, nil
+	refNoPos.Out = reCaughtPos.ReplaceAllString(ref.Out, "$1 # #")
+	ov := RunVM(a, defaultOpts())
+	ov.Out = reCaughtPos.ReplaceAllString(ov.Out, "$1 # #")
+	if class, detail := compareRef(refNoPos, ov, true); class != "" {
+		r.Fail(class, append([]string{"backend:vm"}, itags...), text, detail)
+	}
+	ot := RunTree(a, defaultOpts())
+	ot.Out = reCaughtPos.ReplaceAllString(ot.Out, "$1 # #")
+	r.Trans(4)
+	if class, detail := compareRef(refNoPos, ot, false); class != "" {
+		r.Fail(class, append([]string{"backend:tree"}, itags...), text, detail)
 	}
 }
 
